@@ -690,6 +690,20 @@ def all_u1(ids):
     return 2 if bad else 0
 
 
+def proofs():
+    """TLAPS: the unbounded version of the region lemma (spec/RegionLemma.tla)."""
+    import re
+    p = subprocess.run(["timeout", "600", "tlapm", "--threads", "8", "--cleanfp", "RegionLemma.tla"], cwd=SPEC,
+                       stdout=subprocess.PIPE, stderr=subprocess.STDOUT, text=True)
+    m = re.search(r"All (\d+) obligations? proved", p.stdout)
+    res = {"module": "RegionLemma", "ok": bool(m), "obligations": int(m.group(1)) if m else 0,
+           "cmd": "tlapm --threads 8 --cleanfp RegionLemma.tla", "tail": p.stdout[-600:]}
+    with open(os.path.join(core.VERIF, "evidence", "proofs.json"), "w") as f:
+        json.dump(res, f, indent=1)
+    log("[proofs] RegionLemma: %s (%d obligations)" % ("all proved" if m else "FAILED", res["obligations"]))
+    return 0 if m else 2
+
+
 # ---- selftest: corrupt recorded data, the validator must reject it (DESIGN 4.5) ----
 
 def _flip(rec, path):
